@@ -422,6 +422,16 @@ where
     let v: Vec<_> = Segment::integral_iter_ref(&segs, knot_of(c)).collect();
     dump_segs(&v)
 }
+// Piecewise::integral, Segment::integral_iter (by value) and Segment::integral_iter_ref on the same input
+fn op_pw_integral_all<T: HasIntegral + Num>(c: &Value) -> Vec<u64>
+where
+    T::IntegralOf: Num + Translate,
+{
+    let mut o = op_pw_integral::<T>(c);
+    o.extend(op_integral_iter::<T>(c));
+    o.extend(op_integral_iter_ref::<T>(c));
+    o
+}
 fn scalar_of(c: &Value) -> f64 {
     f(c["s"].as_u64().expect("s"))
 }
@@ -615,6 +625,7 @@ fn run_case(c: &Value) -> Vec<u64> {
         "pw_derivative" => t_poly!(ty; op_pw_derivative(c)),
         "pw_integral" => t_integrable!(ty; op_pw_integral(c)),
         "pw_indefinite" => t_integrable!(ty; op_pw_indefinite(c)),
+        "pw_integral_all" => t_integrable!(ty; op_pw_integral_all(c)),
         "integral_iter" => t_integrable!(ty; op_integral_iter(c)),
         "integral_iter_ref" => t_integrable!(ty; op_integral_iter_ref(c)),
         "pw_mul" => {
